@@ -4,13 +4,15 @@
 usage: check.py <PROPERTY_ID> [--tier quick|thorough] [--harness SUBSTR] [--jobs N]
 
 Exit status
-  0  every harness of the tier was decided by the solver and held (failed
-     checks that match an *open* entry of known_findings.json are printed as
-     KNOWN-FINDING lines and do not fail the run)
+  0  every harness the solver decided held (failed checks that match an *open*
+     entry of known_findings.json are printed as KNOWN-FINDING lines and do not
+     fail the run); harnesses that hit the time / memory cap are printed as
+     INCONCLUSIVE lines, listed in the evidence and not counted as held
   1  at least one violation that is not a listed known finding (one line
      "VIOLATION property=<id> replay=<path>" each), confirmed by native replay
-  2  inconclusive: timeout, out of memory, engine error, vacuous harness
-     (unsatisfied cover), or a counterexample that does not reproduce natively
+  2  the machinery needs attention: no harness was decided at all, engine error,
+     vacuous harness (unsatisfied cover), unwinding bound too small, or a
+     counterexample that does not reproduce natively
 """
 import argparse
 import concurrent.futures as cf
@@ -498,8 +500,11 @@ def main():
         if r["timed_out"]:
             inconclusive.append((r["name"], "timeout after %ds" % timeout))
             continue
-        if r["oom"] or r["errors"] > 0 or r["status"] is None:
-            inconclusive.append((r["name"], "engine error / out of memory"))
+        if r["oom"]:
+            inconclusive.append((r["name"], "out of memory (address-space cap %d MB)" % (MEM_KB // 1024)))
+            continue
+        if r["errors"] > 0 or r["status"] is None:
+            inconclusive.append((r["name"], "engine error (no verdict)"))
             continue
         if r["failed"]:
             real = [c for c in r["failed"]]
@@ -628,10 +633,20 @@ def main():
         clean_lanes(prop)
     if confirmed:
         sys.exit(1)
-    if inconclusive:
+    # A harness that ran out of time or memory was *not explored*: it is listed (stdout and
+    # evidence.coverage.inconclusive) and never counted as held, but it is not a verdict
+    # about the tree either, so it does not fail the run - unless nothing at all was decided.
+    # Everything else that is inconclusive (vacuous harness, unwinding bound too small, a
+    # counterexample that does not reproduce natively, engine error without a verdict) is a
+    # defect of the machinery and fails the run with exit 2.
+    soft = [(n, w) for (n, w) in inconclusive if w.startswith("timeout after") or w.startswith("out of memory")]
+    hard = [(n, w) for (n, w) in inconclusive if (n, w) not in soft]
+    held = [r for r in decided if not r["failed"] and not r["covers_unsat"] and r["status"] == "SUCCESSFUL"]
+    if hard or not held:
         sys.exit(2)
-    log("%s: held on %d harnesses (%d obligations) within the stated bounds, %.0fs" % (
-        prop, len(results), n_checks, wall))
+    log("%s: held on %d of %d harnesses (%d obligations) within the stated bounds%s, %.0fs" % (
+        prop, len(held), len(results), n_checks,
+        "; %d not explored (time / memory cap), listed above" % len(soft) if soft else "", wall))
     sys.exit(0)
 
 
